@@ -52,6 +52,15 @@ def extended_class(cls, variant=0):
         def bare_prop(self) -> int:
             return 3
 
+        def set_QoS(self, level: int = 0) -> int:
+            """A public method whose name has upper-case letters."""
+            return level
+
+        @property
+        def maxRate(self) -> int:
+            """A public property whose name has upper-case letters."""
+            return 5
+
         @staticmethod
         def slots_for(jobs: int = 1, spare: int = 0) -> int:
             """A public method that happens to be a staticmethod."""
